@@ -277,6 +277,12 @@ type TearOptions struct {
 	// Boundaries may return additional interesting absolute offsets inside a
 	// file (e.g. record boundaries known to the harness).
 	Boundaries func(fc *FileCrashState) []int
+	// MaxProduct bounds the cartesian product over several files with an
+	// un-synced suffix (0 = unbounded). When the product is larger, Images
+	// falls back to "one file varies over all its candidate lengths while
+	// every other file keeps either nothing or all of its un-synced suffix"
+	// and State.Reduced reports true (the run is then not exhaustive).
+	MaxProduct int
 }
 
 // SurvivingLengths returns the sorted candidate lengths for one file.
@@ -333,6 +339,24 @@ func (s *State) Exhaustive(o *TearOptions) bool {
 	return true
 }
 
+// Reduced reports whether Images will use the reduced multi-file enumeration
+// because the full product exceeds o.MaxProduct.
+func (s *State) Reduced(o *TearOptions) bool {
+	if o == nil || o.MaxProduct <= 0 {
+		return false
+	}
+	prod := 1
+	for i := range s.Files {
+		if s.Files[i].Unsynced() > 0 {
+			prod *= len(o.SurvivingLengths(&s.Files[i]))
+			if prod > o.MaxProduct {
+				return true
+			}
+		}
+	}
+	return false
+}
+
 // Images enumerates the crash images of the state: the cartesian product, over
 // all files with an un-synced suffix, of the candidate surviving lengths. fn
 // receives a fresh image (it may keep it) and the tears that produced it;
@@ -350,6 +374,43 @@ func (s *State) Images(o *TearOptions, fn func(img *Image, tears []Tear) bool) i
 	}
 	choice := make([]int, len(cands))
 	n := 0
+	if s.Reduced(o) {
+		// one file varies, the others keep nothing / everything
+		seen := map[string]bool{}
+		for vi := range cands {
+			for _, othersFull := range []bool{false, true} {
+				for _, l := range cands[vi].lens {
+					img := &Image{Dirs: append([]string(nil), s.Dirs...), Files: make(map[string][]byte, len(s.Files))}
+					for i := range s.Files {
+						img.Files[s.Files[i].Path] = append([]byte(nil), s.Files[i].Data[:s.Files[i].Durable]...)
+					}
+					tears := make([]Tear, len(cands))
+					key := ""
+					for ci, c := range cands {
+						fc := &s.Files[c.idx]
+						sl := fc.Durable
+						if ci == vi {
+							sl = l
+						} else if othersFull {
+							sl = len(fc.Data)
+						}
+						img.Files[fc.Path] = append([]byte(nil), fc.Data[:sl]...)
+						tears[ci] = Tear{Path: fc.Path, Durable: fc.Durable, Full: len(fc.Data), Survived: sl}
+						key += fmt.Sprintf("%d,", sl)
+					}
+					if seen[key] {
+						continue
+					}
+					seen[key] = true
+					n++
+					if !fn(img, tears) {
+						return n
+					}
+				}
+			}
+		}
+		return n
+	}
 	for {
 		img := &Image{Dirs: append([]string(nil), s.Dirs...), Files: make(map[string][]byte, len(s.Files))}
 		for i := range s.Files {
